@@ -283,7 +283,7 @@ __CPROVER_ensures(POW2(RET)) /*@ C01 "next_power_of_two returns a power of two" 
 __CPROVER_ensures(n <= (((size_t)1) << 63) ==> (RET >= n && (RET == 1 || RET / 2 < n))) /*@ C01 "the smallest power of two not below n" */
 __CPROVER_ensures(n > (((size_t)1) << 63) ==> RET == (((size_t)1) << 63)) /*@ C01 "saturates at the largest power of two" */
 """)],
-    harness='  T n; next_power_of_two(n);',
+    harness='  T n; next_power_of_two(n);', snapshot=[('n', 'n')], replay=dict(template='pure.cpp', op='npow2'),
     cbmc=['--unwind', '66', '--unwinding-assertions'],
     dropped=['template instantiated at size_t (the type both queues use)', 'assert (NDEBUG)'], trusted=[], min_obligations=3,
     width_bounded='loop bounded by the operand width (<= 64 iterations): --unwind 66 with unwinding assertions is complete',
